@@ -1,6 +1,7 @@
 package main
 
 import (
+	"fmt"
 	"go/types"
 
 	"golang.org/x/tools/go/ssa"
@@ -569,6 +570,7 @@ func (m *Machine) startPanic(g *Goroutine, p goPanic) {
 		m.checkAssert(tFalse, "no-panic", "panic", "double panic: "+p.msg)
 		panic(pathEnd{"panic"})
 	}
+	p.msg += m.where()
 	g.panicV = &p
 	g.unwindDepth = len(g.frames)
 	g.wait = nil
@@ -592,6 +594,12 @@ func (m *Machine) unwindStep(g *Goroutine) {
 	}
 	g.frames = g.frames[:len(g.frames)-1]
 	g.unwindDepth--
+	if len(g.frames) == 0 {
+		msg := g.panicV.msg
+		m.panicMsg = msg
+		m.checkAssert(tFalse, "no-panic", "panic", msg)
+		panic(pathEnd{"panic"})
+	}
 }
 
 func (m *Machine) onDeadlock() {
@@ -599,7 +607,9 @@ func (m *Machine) onDeadlock() {
 	for _, g := range m.gs {
 		if !g.done && len(g.frames) > 0 {
 			fr := g.top()
-			desc += " g" + itoa(g.id) + "@" + fr.fn.Name()
+			desc += fmt.Sprintf(" g%d@%s[wait=%v mu=%v fn=%v]", g.id, fr.fn.Name(), g.wait != nil, g.waitMu != nil, g.waitFn != nil)
+		} else {
+			desc += fmt.Sprintf(" g%d(done=%v frames=%d)", g.id, g.done, len(g.frames))
 		}
 	}
 	m.checkAssert(tFalse, "no-deadlock", "deadlock", "all goroutines blocked:"+desc)
